@@ -127,6 +127,27 @@ CHECKS = {
     ),
 }
 
+# dimensions added by the later seeded-change waves (8-10); appended to the level text
+ADDENDA = {
+    "C01": "Further dimensions: partial initial conditions (nothing supplied as an empty dict, every element omitted / alone, every variable omitted; engine-created constant fill) after a fully supplied step, integer-dtype caller arrays, integer-typed parameters, user-defined subclasses of every element, edit mode 'params' (public attributes assigned after a step, speed-limit signs moved), 13 harness networks incl. 3-way split/merge and a diamond.",
+    "C02": "Further dimensions: element-by-element stepping (second step), NumPy-array turn rates on repeated steps, integer-dtype caller arrays, edit mode 'params', the harness networks.",
+    "C03": "Further dimensions: partial initial conditions with caller symbols, init/next positivity options on vectors with negatives, integer-dtype NumPy twin, step/compile/step/compile on one engine object.",
+    "C04": "Further histories: positional to_function arguments, elements of user subclasses returning next states in reversed key order, every element sharing one name.",
+    "C05": "Further variants: spare keyword arguments to to_function, edit mode 'params'.",
+    "C06": "The smaller families are enumerated three times: distinct names, one shared name, user-defined subclasses of every element class; is_valid(True) positionally.",
+    "C07": "Further dimensions: all step parameters symbolic and declared (with/without flow outputs), link-subset boundary vectors (every proper subset of links empty or standing), edit mode 'params', the larger harness networks.",
+    "C08": "Explorer C: two networks made of the same element objects (k mutations each, k = 1, 2, and interleaved first/second/first histories); the alphabet has 23 mutating calls incl. generator forms and a four-entry bulk call.",
+    "C10": "Also with partial initial conditions (every supply mode) on the compiled function.",
+    "C11": "Each option set is also passed positionally and as truthy non-bool values (numpy.True_, 1); the extra flow outputs are compared too.",
+    "C12": "Alphabet now 28 operations / 15 core operations: compilation with caller-held parameters and keyword dictionaries, public element attributes assigned between steps, fed-back steps compared with a fresh network; 11 networks incl. 3-way split and merge.",
+    "C13": "20+ operations: probe elements (user subclasses recording the engine object every method is handed), a falsy explicit engine, two NumPy engines with different fills; 4 networks incl. a 3-way split.",
+    "C15": "Plus the harvested family (every argument tuple the element layer passes while stepping the network family on the NumPy engine, incl. integer engine-created variables and integer-typed parameters, replayed on CasADi), every subset of signs of a 7-segment VSL link, and 0-d array parameters changed in place between two calls.",
+    "C16": "Also compactness levels -1 and -3 and the call form that re-uses the step keyword dictionary (symbols included) without flow outputs.",
+    "C17": "Also the second of two steps with different sampling times on the same objects, and edit mode 'params'.",
+    "C18": "Also neutral engine-created limits after a step with finite limits, integer-dtype arrays, and 12-segment links with signs on two-digit segments.",
+    "C19": "Three minimal families (one link; two links with an interior ramp; a merge of two links into a third).",
+}
+
 NOT_YET = "check not built yet (work in progress; see DESIGN.md section 7)"
 
 ALL = [f"C{i:02d}" for i in range(1, 20)]
@@ -138,6 +159,8 @@ def main():
         if pid not in CHECKS:
             continue
         tech, text, note, ref = CHECKS[pid]
+        if pid in ADDENDA:
+            text = text + " " + ADDENDA[pid]
         checks.append({
             "property_id": pid,
             "quick_cmd": f"./check {pid} --tier quick",
